@@ -157,6 +157,59 @@ func init() {
 		}
 		return args[1]
 	})
+	reg("And", func(fr *frame, args []value) value {
+		var r value = true
+		for _, c := range args[0].([]value) {
+			r = vAnd(r, c)
+		}
+		return r
+	})
+	reg("Or", func(fr *frame, args []value) value {
+		var r value = false
+		for _, c := range args[0].([]value) {
+			r = vOr(r, c)
+		}
+		return r
+	})
+	reg("Not", func(fr *frame, args []value) value { return vNot(args[0]) })
+	reg("Implies", func(fr *frame, args []value) value { return vOr(vNot(args[0]), args[1]) })
+	reg("CharsIn", func(fr *frame, args []value) value {
+		set := argStr(args[1])
+		var present [256]bool
+		for i := 0; i < len(set); i++ {
+			present[set[i]] = true
+		}
+		acc := tTrue
+		for _, e := range strElems(args[0]) {
+			switch c := e.(type) {
+			case uint8:
+				if !present[c] {
+					return false
+				}
+			case symv:
+				d := tFalse
+				for lo := 0; lo < 256; lo++ {
+					if !present[lo] {
+						continue
+					}
+					hi := lo
+					for hi+1 < 256 && present[hi+1] {
+						hi++
+					}
+					if lo == hi {
+						d = mkOr(d, mkEq(c.t, mkBV(8, uint64(lo))))
+					} else {
+						d = mkOr(d, mkAnd(bvCmp("bvuge", c.t, mkBV(8, uint64(lo))), bvCmp("bvule", c.t, mkBV(8, uint64(hi)))))
+					}
+					lo = hi
+				}
+				acc = mkAnd(acc, d)
+			}
+		}
+		return mkVal(acc, types.Bool)
+	})
+	reg("BytesEq", func(fr *frame, args []value) value { return elemsEq(args[0].([]value), args[1].([]value)) })
+	reg("StrEq", func(fr *frame, args []value) value { return strEq(args[0], args[1]) })
 	reg("Symbolic", func(fr *frame, args []value) value { return true })
 	reg("Note", func(fr *frame, args []value) value {
 		res := fr.px().w.ex.res
